@@ -428,6 +428,68 @@ def response_after_failure(first_ok: bool, second_ok: bool, n2: int, s: int) -> 
     return len(out.closed) == 1 and isinstance(out.closed[0], ProtocolError)
 
 
+def begin_auth_race(u2: int, m2: int, vR: bool, order: int, s1: int, s2: int, rc: int) -> bool:
+    """A server that lets "guest" in without authentication (begin_auth
+    returns False, asynchronously) and requires it for "root".  A request for
+    guest is followed, before guest's begin_auth has completed, by a request
+    for root: the connection may end up authenticated as guest (who needs no
+    credential) or as root only if root's password validator accepted - never
+    as root on the strength of guest's exemption."""
+    loop = MiniLoop()
+    user2 = pick(['root', 'guest'], u2)
+    owner = Owner(loop, {'root': vR}, {})
+    futs = {}
+
+    async def begin_auth(username):
+        fut = loop.create_future()
+        futs.setdefault(username, []).append(fut)
+        await fut
+        return username != 'guest'
+
+    owner.begin_auth = begin_auth
+    saved = C.asyncio
+    C.asyncio = AsyncioShim(loop)
+
+    def release(user):
+        for fut in futs.pop(user, []):
+            if not fut.done():
+                fut.set_result(None)
+
+    try:
+        conn, out = _server(loop, owner, conc(rc, 0, 2))
+        deliver(conn, _req('guest', 'none', b''))
+        loop.run(4)
+
+        def second():
+            deliver(conn, _pw(user2) if m2 == 0 else _req(user2, 'none', b''))
+
+        if order == 0:
+            release('guest')
+            loop.run(s1)
+            second()
+        else:
+            second()
+            loop.run(s1)
+            release('guest')
+        loop.run(s2)
+        for _ in range(3):
+            release('guest')
+            release('root')
+            loop.run(30)
+    finally:
+        C.asyncio = saved
+    if loop.exceptions or out.internal:
+        return False
+    nsucc = out.sent.count(52)
+    if conn._auth_complete:
+        if conn._username == 'guest':
+            ok = True
+        else:
+            ok = 'root' in owner.ok            # root only by an accepted password
+        return ok and nsucc == 1 and conn.get_extra_info('username') == conn._username
+    return nsucc == 0
+
+
 class ModelCert:
     pass
 
@@ -571,6 +633,12 @@ OBLIGATIONS = [
     Ob('response_after_failure', response_after_failure, sym=dict(first_ok=B, second_ok=B, n2=R(0, 2), s=R(0, 2)), timeout=200,
        functions=[C.SSHConnection.send_userauth_failure, C.SSHConnection.process_packet, AU._ServerKbdIntAuth._process_info_response],
        bounds='one keyboard-interactive attempt answered wrongly/rightly, then a second INFO_RESPONSE with 0..2 answers and no new request'),
+    Ob('begin_auth_race', begin_auth_race,
+       sym=dict(u2=R(0, 1), m2=R(0, 1), vR=B, order=R(0, 1), s1=R(0, 2), s2=R(0, 2), rc=R(0, 2)),
+       shards=dict(order=[0, 1], u2=[0, 1]), timeout=300, thorough_timeout=900, thorough_sym=dict(s1=R(0, 5), s2=R(0, 5)),
+       functions=[C.SSHConnection._process_userauth_request, C.SSHConnection._finish_userauth, C.SSHConnection.send_userauth_success],
+       bounds='request for an exempt user (asynchronous begin_auth -> False) then a request for root/guest (password or none) before or after that begin_auth '
+              'completes; 0..2 (thorough 0..5) loop steps between events; reload_config taking 0..2 steps'),
     Ob('pk_binding', pk_binding,
        sym=dict(flaw=R(0, 8), probe_first=B, trailing=B), timeout=150,
        functions=[AU._ServerPublicKeyAuth._start, C.SSHServerConnection.validate_public_key,
